@@ -82,13 +82,13 @@ def inplace_on_source(o):
     return None
 
 
-def analyse_cell(P, is_right, swap, reverse, vector, respelled=False, trailing_dim=False):
+def analyse_cell(P, is_right, swap, reverse, vector, respelled=False, trailing_dim=False, third_axis=False):
     table = table_for(is_right, swap, reverse)
     if respelled:
         from ..facepad import respell
 
         table = respell(table)
-    outs = run(P, table, vector=vector, trailing_dim=trailing_dim)
+    outs = run(P, table, vector=vector, trailing_dim=trailing_dim, third_axis=third_axis)
     rows = []
     for o in outs:
         if o.kind != "return":
@@ -264,16 +264,18 @@ def check_single_links(ctx, P, vectors, rule_of=None, floor_rule="R05.1"):
     rule_of = rule_of or (lambda r: r)
     fi = P.func("padding:_pad_face_connections")
     n_cells = 0
-    for is_right, swap, reverse, variant in itertools.product([False, True], [False, True], [False, True], ["", "respelled", "trailing"]):
-        respelled, trailing = variant == "respelled", variant == "trailing"
+    for is_right, swap, reverse, variant in itertools.product([False, True], [False, True], [False, True], ["", "respelled", "trailing", "third axis"]):
+        respelled, trailing, third = variant == "respelled", variant == "trailing", variant == "third axis"
+        if third and not swap:
+            continue  # a third padded axis matters where the code has to tell the along-edge dimension from the others
         for vector in vectors:
             if respelled and vector == "parallel":
                 continue  # the spelling of the table is exercised on scalars and on the component that changes sign
             if trailing and not swap:
                 continue  # an extra dimension stored last matters where the along-edge direction is flipped
-            kind = f"{'right' if is_right else 'left'} side, {'swapped' if swap else 'same'} axis, {'reversed' if reverse else 'normal'}, {vector or 'scalar'}" + (", links as lists with 0/1 flags" if respelled else "") + (", an extra dimension stored last" if trailing else "")
+            kind = f"{'right' if is_right else 'left'} side, {'swapped' if swap else 'same'} axis, {'reversed' if reverse else 'normal'}, {vector or 'scalar'}" + (", links as lists with 0/1 flags" if respelled else "") + (", an extra dimension stored last" if trailing else "") + (", a third padded axis declared before the horizontal ones" if third else "")
             try:
-                rows = analyse_cell(P, is_right, swap, reverse, vector, respelled, trailing)
+                rows = analyse_cell(P, is_right, swap, reverse, vector, respelled, trailing, third)
             except Unmodelled as e:
                 ctx.unknown(rule_of("R05.1"), kind, str(e))
                 continue
@@ -301,49 +303,71 @@ def check_single_links(ctx, P, vectors, rule_of=None, floor_rule="R05.1"):
 
 
 def check_shared_source(ctx, P, vectors, rule_of=None):
-    """One face that is the source of two links of different kind in one call (a same-axis link from one neighbour, an
-    axis-swapping link from another - every corner of a cubed sphere): which array a halo is cut from is decided per link."""
+    """One face (2) that is the source of two links of different kind in one call: faces 0 and 1 both take the halo on the same
+    side of AX from face 2, across links of every ordered pair of distinct kinds (same-axis / axis-swapping x normal / reversed) -
+    every corner of a cubed sphere has such a face.  What a halo is made of (component, edge, depth and along-edge order, sign)
+    is decided per link; nothing computed for one link may be handed to another."""
     from ..affsel import flatten_concat
+    from ..geometry import reciprocal_side
 
     rule_of = rule_of or (lambda r: r)
     fi = P.func("padding:_pad_face_connections")
-    for first_swapped in (False, True):
-        # faces 0 and 1 both take their right halo along AX from face 2: one across a same-axis link, one across a swapping link
-        k0, k1 = ((True, AY), (False, AX)) if first_swapped else ((False, AX), (True, AY))
-        t = {0: {AX: (None, (2, k0[1], False))}, 1: {AX: (None, (2, k1[1], False))}, 2: {AX: ((0 if not k0[0] else 1, AX, False), None), AY: ((0 if k0[0] else 1, AX, False), None)}}
-        for vector in vectors:
-            inst = f"one face the source of a same-axis and of an axis-swapping link ({'swapping' if first_swapped else 'same-axis'} link met first), {vector or 'scalar'}"
-            try:
-                outs = run(P, {FACE: t}, vector=vector, n_faces=3, prune=True)
-            except Unmodelled as e:
-                ctx.unknown(rule_of("R05.5" if vector else "R05.1"), inst, str(e))
-                continue
-            bad = None
-            for o in outs:
-                if o.kind != "return":
-                    bad = f"raises {o.value} (line {getattr(getattr(o.exc, 'node', None), 'lineno', '?')})"
-                    continue
-                try:
-                    faces, facedim, trim = face_parts(o.value)
-                    for f, (swap, _) in ((0, k0), (1, k1)):
-                        _, leaves = flatten_concat(faces[f], FACE, axis_of_dim)
-                        forms = [norm_form(x) for x in leaves]
-                        if [x.face for x in forms] != [f, 2]:
-                            bad = bad or f"face {f} is assembled from faces {[x.face for x in forms]}; expected its own cells and the halo from face 2"
+    kinds = [(sw, rv) for sw in (False, True) for rv in (False, True)]
+    n = 0
+    for is_right in (True, False):
+        side = 1 if is_right else 0
+        for k0 in kinds:
+            for k1 in kinds:
+                if k0 == k1:
+                    continue  # two links of the same kind would need the same edge of face 2
+                t = {0: {AX: [None, None]}, 1: {AX: [None, None]}, 2: {AX: [None, None], AY: [None, None]}}
+                for f, (swap, rev) in ((0, k0), (1, k1)):
+                    b_axis = AY if swap else AX
+                    t[f][AX][side] = (2, b_axis, rev)
+                    t[2][b_axis][reciprocal_side(side, rev)] = (f, AX, rev)
+                table = {FACE: {f: {ax: tuple(v) for ax, v in per.items() if any(x is not None for x in v)} for f, per in t.items()}}
+                any_swap = k0[0] or k1[0]
+                for vector in vectors:
+                    inst = f"faces 0 and 1 take their {'right' if is_right else 'left'} halo from face 2 across a {_kind(k0)} and a {_kind(k1)} link, {vector or 'scalar'}"
+                    rule = rule_of("R05.5" if vector else "R05.1")
+                    try:
+                        outs = run(P, table, vector=vector, n_faces=3, prune=True)
+                    except Unmodelled as e:
+                        ctx.unknown(rule, inst, str(e))
+                        continue
+                    problems = {}
+                    unknown = None
+                    for o in outs:
+                        if o.kind != "return":
+                            problems.setdefault("R05.1", f"raises {o.value} (line {getattr(getattr(o.exc, 'node', None), 'lineno', '?')})")
                             continue
-                        want = "PARTNER" if (vector and swap) else "MAIN"
-                        if forms[1].base != want:
-                            bad = bad or (f"the halo of face {f} across its {'axis-swapping' if swap else 'same-axis'} link is cut from the {'partner' if forms[1].base == 'PARTNER' else 'same'} component of face 2, "
-                                          f"which is also the source of the other face's {'same-axis' if swap else 'axis-swapping'} link; it must be the {'partner' if want == 'PARTNER' else 'same'} component")
-                except Unmodelled as e:
-                    ctx.unknown(rule_of("R05.5" if vector else "R05.1"), inst, str(e))
-                    bad = None
-                    break
-            else:
-                if bad:
-                    ctx.report(rule_of("R05.5" if vector else "R05.1"), fi, inst, bad)
-                else:
-                    ctx.ok(rule_of("R05.5" if vector else "R05.1"), inst, "each halo from the component its own link prescribes")
+                        try:
+                            faces, facedim, trim = face_parts(o.value)
+                            for f, (swap, rev) in ((0, k0), (1, k1)):
+                                _, leaves = flatten_concat(faces[f], FACE, axis_of_dim)
+                                forms = [norm_form(x) for x in leaves]
+                                want_faces = [f, 2] if is_right else [2, f]
+                                if [x.face for x in forms] != want_faces:
+                                    problems.setdefault("R05.2", f"face {f} is assembled from faces {[x.face for x in forms]}; expected {want_faces}")
+                                    continue
+                                tt, e_orth, e_tang, e_target = expected(is_right, swap, rev)
+                                along = L if any_swap else N  # AY is pre-padded iff some link of the table swaps axes
+                                e_tang = Sel(0, 1, along) if not tt["tang_flip"] else Sel(0, 1, along).slice(SliceV(None, None, -1))
+                                fs, ft = (forms[1], forms[0]) if is_right else (forms[0], forms[1])
+                                for k, v in _check_piece(fs, ft, swap, rev, vector, tt, e_orth, e_tang, along, target_sel=e_target).items():
+                                    problems.setdefault(k, f"halo of face {f} across its {_kind((swap, rev))} link (face 2 is also the source of the other face's {_kind(k1 if f == 0 else k0)} link): " + v)
+                        except Unmodelled as e:
+                            unknown = str(e)
+                            break
+                    n += 1
+                    if unknown:
+                        ctx.unknown(rule, inst, unknown)
+                    elif problems:
+                        for r_, msg in sorted(problems.items()):
+                            ctx.report(rule_of(r_), fi, inst, msg)
+                    else:
+                        ctx.ok(rule, inst, "each halo cut as its own link prescribes")
+    return n
 
 
 def check_one_sided(ctx, P, rule_of=None):
